@@ -1,41 +1,58 @@
 #!/bin/bash
-# tools/seed_verify.sh <ID> [extra check ids...]  - confirms a seeded change in its scratch worktree /tmp/seed-<ID>,
-# stores it under seeded/<ID>/ and runs the check(s) against the changed tree (VERIF_REPO = the worktree).
+# tools/seed_verify.sh <ID> [extra check ids...]
+#  1. confirms the seeded change in the scratch worktree /tmp/seed-<ID> where the sub-agent wrote it (suite passes with
+#     the change, demo fails with it and passes without it) and stores patch/demo/notes under seeded/<ID>/  (skipped when
+#     that worktree is gone: the stored confirmation is kept)
+#  2. applies seeded/<ID>/patch.diff to a fresh scratch worktree of /repo's current HEAD (under /tmp, removed afterwards)
+#     and runs the check(s) against it (VERIF_REPO), recording exit codes and mechanisms in seeded/<ID>/meta.json
 ID=$1; shift
 W=/tmp/seed-$ID
 V=/verif
 mkdir -p $V/seeded/$ID
-cd $W || exit 2
-git diff > $V/seeded/$ID/patch.diff
-cp demo.py $V/seeded/$ID/demo.py 2>/dev/null
-cp SEED_NOTES.md $V/seeded/$ID/SEED_NOTES.md 2>/dev/null
-suite=$(PYTHONPATH=$W /venv/bin/python -m pytest -q -p no:cacheprovider tests 2>&1 | grep -E "passed|failed" | tail -1)
-PYTHONPATH=$W /venv/bin/python -W ignore demo.py > /tmp/demo-$ID-with.log 2>&1; with=$?
-git stash -q
-PYTHONPATH=$W /venv/bin/python -W ignore demo.py > /tmp/demo-$ID-without.log 2>&1; without=$?
-git stash pop -q
-echo "suite_with_change: $suite | demo with change exit=$with | demo without change exit=$without"
+conf=""
+if [ -d $W ]; then
+  cd $W || exit 2
+  git diff > $V/seeded/$ID/patch.diff
+  cp demo.py $V/seeded/$ID/demo.py 2>/dev/null
+  cp SEED_NOTES.md $V/seeded/$ID/SEED_NOTES.md 2>/dev/null
+  suite=$(PYTHONPATH=$W /venv/bin/python -m pytest -q -p no:cacheprovider tests 2>&1 | grep -E "passed|failed" | tail -1)
+  PYTHONPATH=$W /venv/bin/python -W ignore demo.py > /tmp/demo-$ID-with.log 2>&1; with=$?
+  git stash -q
+  PYTHONPATH=$W /venv/bin/python -W ignore demo.py > /tmp/demo-$ID-without.log 2>&1; without=$?
+  git stash pop -q
+  echo "suite_with_change: $suite | demo with change exit=$with | demo without change exit=$without"
+  conf="{\"suite_with_change\":\"$suite\",\"demo_exit_with_change\":$with,\"demo_exit_without_change\":$without}"
+fi
+R=/tmp/seedrun-$ID
+rm -rf $R; git -C /repo worktree prune
+git -C /repo worktree add -q --detach $R HEAD || exit 2
+if ! git -C $R apply $V/seeded/$ID/patch.diff; then echo "patch does not apply to current HEAD"; applied=false; else applied=true; fi
 cd $V
 res=""
-for c in $ID "$@"; do
-  out=$(VERIF_REPO=$W ./check $c quick 2>&1); rc=$?
-  mech=$(echo "$out" | grep "mechanism=" | sed 's/ witnesses.*//; s/^ *mechanism=//' | tr '\n' ',' )
-  echo "check $c quick on changed tree: exit=$rc mechanisms=$mech"
-  res="$res{\"check\":\"$c\",\"tier\":\"quick\",\"exit\":$rc,\"mechanisms\":\"$mech\"},"
-done
-/venv/bin/python - "$ID" "$suite" "$with" "$without" "[${res%,}]" <<'PY'
-import json, sys, os
-ID, suite, w, wo, res = sys.argv[1:6]
+if $applied; then
+  PYTHONPATH=$R /venv/bin/python -W ignore $V/seeded/$ID/demo.py > /tmp/demo-$ID-head.log 2>&1; dh=$?
+  echo "demo on current HEAD + patch: exit=$dh"
+  for c in $ID "$@"; do
+    out=$(VERIF_REPO=$R ./check $c quick 2>&1); rc=$?
+    mech=$(echo "$out" | grep "mechanism=" | sed 's/ witnesses.*//; s/^ *mechanism=//' | tr '\n' ',' )
+    echo "check $c quick on HEAD+patch: exit=$rc mechanisms=$mech"
+    res="$res{\"check\":\"$c\",\"tier\":\"quick\",\"exit\":$rc,\"mechanisms\":\"$mech\"},"
+  done
+fi
+git -C /repo worktree remove --force $R
+/venv/bin/python - "$ID" "$conf" "[${res%,}]" "${dh:-null}" <<'PY'
+import json, sys, os, subprocess
+ID, conf, res, dh = sys.argv[1:5]
 meta_path = f'/verif/seeded/{ID}/meta.json'
-meta = {}
-if os.path.exists(meta_path):
-    meta = json.load(open(meta_path))
-meta.update({'property': ID, 'source': 'sub-agent given only the property text and a scratch worktree',
-             'confirmed': {'suite_with_change': suite, 'demo_exit_with_change': int(w), 'demo_exit_without_change': int(wo)},
-             'how_run': f'checks run with VERIF_REPO=/tmp/seed-{ID} (the scratch worktree with the change applied)',
-             'check_results': json.loads(res)})
-notes = f'/verif/seeded/{ID}/SEED_NOTES.md'
-if os.path.exists(notes) and 'needs_to_manifest' not in meta:
-    meta['needs_to_manifest'] = 'see SEED_NOTES.md'
+meta = json.load(open(meta_path)) if os.path.exists(meta_path) else {}
+meta.update({'property': ID, 'source': 'sub-agent given only the property text and its own scratch worktree of /repo'})
+if conf:
+    meta['confirmed'] = json.loads(conf)
+meta['how_run'] = ('patch.diff applied to a fresh scratch worktree of /repo HEAD under /tmp (removed afterwards); checks run with '
+                   'VERIF_REPO pointing at it')
+meta['repo_head_when_run'] = subprocess.run(['git', '-C', '/repo', 'rev-parse', '--short', 'HEAD'], capture_output=True, text=True).stdout.strip()
+meta['demo_exit_on_head_plus_patch'] = None if dh == 'null' else int(dh)
+meta['check_results'] = json.loads(res)
+meta.setdefault('needs_to_manifest', 'see SEED_NOTES.md')
 json.dump(meta, open(meta_path, 'w'), indent=1)
 PY
